@@ -134,7 +134,7 @@ func C04(run *hx.Run) {
 			var keptRec sdb.Record
 			var keptRecCopy hx.Row
 			keptID := int64(0)
-			for _, id := range ids {
+			for pi, id := range ids {
 				why := ps.ids[id]
 				want, has := byID[id]
 				var row sqlittle.Row
@@ -202,6 +202,23 @@ func C04(run *hx.Run) {
 						run.Violation("C04/PKSelect/"+why+"/values", fmt.Sprintf("PKSelect(%s, %d) returned %d rows, want exactly the stored row", t.Name, id, len(got)), detail)
 					case !has && len(got) != 0:
 						run.Violation("C04/PKSelect/"+why+"/phantom", fmt.Sprintf("PKSelect(%s, %d) returned rows for an absent key", t.Name, id), detail)
+					}
+					// the same rowid in the other Go types a Key "accepts and converts" (int, int32, uint, uint32, bool)
+					if gk := goTypedKey([]hx.Value{id}, pi); pm == "" && err == nil {
+						if _, same := gk[0].(int64); !same {
+							got2, err2, pm2 := collectPK(db, t.Name, gk, cols)
+							run.Eval(1)
+							switch {
+							case pm2 != "":
+								run.Violation("C04/PKSelect/go-typed-key/panic", fmt.Sprintf("PKSelect(%s, Key{%T(%d)}): panic: %s", t.Name, gk[0], id, firstLines(pm2, 2)), detail)
+							case err2 != nil:
+								run.Violation("C04/PKSelect/go-typed-key/error", fmt.Sprintf("PKSelect(%s, Key{%T(%d)}) error: %v; Key{int64(%d)} is answered (a Key converts the Go integer types)", t.Name, gk[0], id, err2, id), detail)
+							case diffRows(got, got2) != "":
+								run.Violation("C04/PKSelect/go-typed-key/values", fmt.Sprintf("PKSelect(%s, Key{%T(%d)}) differs from Key{int64(%d)}: %s", t.Name, gk[0], id, id, diffRows(got, got2)), detail)
+							default:
+								run.See("go_typed_rowid_keys", fmt.Sprintf("%T", gk[0]))
+							}
+						}
 					}
 				}
 			}
